@@ -29,7 +29,7 @@ class _Rename(ast.NodeTransformer):
     def visit_Name(self, n):
         if n.id in self.mapping:
             v = self.mapping[n.id]
-            return copy.deepcopy(v) if isinstance(v, ast.AST) else ast.Name(id=v, ctx=ast.Load())
+            return copy.deepcopy(v) if isinstance(v, ast.AST) else ast.Name(id=v, ctx=n.ctx)          # an assignment target stays one
         return n
 
 
